@@ -411,6 +411,21 @@ func (e *SpecEnv) evalCall(x *ast.CallExpr) Val {
 		return e.quantSort(x, "Real", func(v string) Val { return realV(v) })
 	case "forallI":
 		return e.quantSort(x, "Int", func(v string) Val { return intV(v) })
+	case "forallD":
+		e.run.needData()
+		return e.quantSort(x, "Data", func(v string) Val { return Val{K: KRef, T: v, Sort: "Data"} })
+	case "forallF":
+		return e.quantSort(x, "Fn", func(v string) Val { return Val{K: KRef, T: v, Sort: "Fn"} })
+	case "leafv":
+		// leafv(d, J, k): the float64 leaf reached from d by following J[k], J[k+1], ...
+		e.run.needData()
+		bf := e.run.boxFn("Real", "Data")
+		w.ensureSl("Data")
+		bs := e.run.boxFn("Sl_Data", "Data")
+		e.run.needNamed("leafv", fmt.Sprintf(`(declare-fun leafv (Data (Array Int Int) Int) Real)
+(assert (forall ((d Data) (J (Array Int Int)) (k Int)) (! (=> (is%s d) (= (leafv d J k) (un%s d))) :pattern ((leafv d J k)))))
+(assert (forall ((d Data) (J (Array Int Int)) (k Int)) (! (=> (is%s d) (= (leafv d J k) (leafv (select (arrSl_Data (un%s d)) (select J k)) J (+ k 1)))) :pattern ((leafv d J k)))))`, bf, bf, bs, bs))
+		return realV(sx("leafv", arg(0).T, e.run.coerce(e.st, arg(1), idxSort, name), arg(2).T))
 	case "forallG":
 		return e.quantSort(x, "R_GradContext", func(v string) Val {
 			return Val{K: KRef, T: v, Sort: "R_GradContext", Go: e.run.ptrTypeByName("GradContext")}
@@ -459,6 +474,12 @@ func (e *SpecEnv) evalCall(x *ast.CallExpr) Val {
 		}
 		e.run.needDomain("dsumT")
 		return intV(sx("dsumT", e.run.sliceArr(e.st, xs.S), arg(1).T, arg(2).T))
+	case "published":
+		v := arg(0)
+		if v.K != KRef || v.Sort != "T" {
+			specFail("published of %s", v)
+		}
+		return boolV(sx("published", v.T))
 	case "preexisting":
 		v := arg(0)
 		if v.K != KRef {
@@ -473,6 +494,45 @@ func (e *SpecEnv) evalCall(x *ast.CallExpr) Val {
 		}
 		mt := types.Unalias(m.Go).Underlying().(*types.Map)
 		return e.run.mapGet(e.st, m, arg(1), mt).Tup[1]
+	case "isF", "fval", "isS", "slen", "child", "mkF":
+		// nested []any data (DESIGN.md 3.2): a Data value is a float64 leaf or a slice of Data
+		d := arg(0)
+		e.run.needData()
+		bf := e.run.boxFn("Real", "Data")
+		w.ensureSl("Data")
+		bs := e.run.boxFn("Sl_Data", "Data")
+		switch name {
+		case "mkF":
+			return Val{K: KRef, T: sx(bf, toReal(d)), Sort: "Data"}
+		case "isF":
+			return boolV(sx("is"+bf, d.T))
+		case "fval":
+			return realV(sx("un"+bf, d.T))
+		case "isS":
+			return boolV(sx("is"+bs, d.T))
+		case "slen":
+			return intV(sx("lenSl_Data", sx("un"+bs, d.T)))
+		default:
+			return Val{K: KRef, T: sx("select", sx("arrSl_Data", sx("un"+bs, d.T)), arg(1).T), Sort: "Data"}
+		}
+	case "arrOf":
+		v := arg(0)
+		if v.K != KSlice {
+			specFail("arrOf of non-slice")
+		}
+		return Val{K: KRef, T: e.run.sliceArr(e.st, v.S), Sort: fmt.Sprintf("(Array Int %s)", v.S.ESrt)}
+	case "offOf":
+		v := arg(0)
+		if v.K != KSlice {
+			specFail("offOf of non-slice")
+		}
+		return intV(v.S.Off)
+	case "endOf":
+		v := arg(0)
+		if v.K != KSlice {
+			specFail("endOf of non-slice")
+		}
+		return intV(add(v.S.Off, v.S.Len))
 	case "boxReal":
 		e.run.needData()
 		return Val{K: KRef, T: sx(e.run.boxFn("Real", "Data"), toReal(arg(0))), Sort: "Data"}
